@@ -235,8 +235,18 @@ def cores_case(draw):
         a['int_dtype'] = False
         cap = draw(st.sampled_from([1, 2, 3, 5]))
         entry = draw(st.sampled_from(['ctor', 'ortho', 'left_then_right', 'right_then_left']))
-    return {'a': a, 'cap': cap, 'entry': entry, 'aliased': draw(st.sampled_from([False, False, False, True])),
-            'cap_numpy_int': draw(st.sampled_from([False, False, True]))}
+    near_tie = False
+    if draw(st.sampled_from([False] * 11 + [True])):
+        # order 2: a first core that is orthonormal only up to 4e-6 (computed in single precision, stored in double) and two singular
+        # values at the cut that differ by less than that -- the cut has to be made in an orthonormal gauge to keep the right one
+        near_tie = True
+        n1, n2, r = draw(st.integers(4, 6)), draw(st.integers(4, 6)), draw(st.integers(3, 4))
+        a['rows'], a['cols'], a['ranks'] = [n1, n2], [1, 1], [1, r, 1]
+        a['decay'], a['int_dtype'], a['cplx'] = False, False, False
+        cap = r - 1
+        entry = draw(st.sampled_from(['ctor', 'ortho']))
+    return {'a': a, 'cap': cap, 'entry': entry, 'aliased': draw(st.sampled_from([False, False, False, True])) and not near_tie,
+            'cap_numpy_int': draw(st.sampled_from([False, False, True])), 'near_tie': near_tie}
 
 
 def fresh(cores):
@@ -255,6 +265,16 @@ def body_cores(case):
             r = cores[i].shape[3]
             w = 10.0 ** (-2.0 * np.arange(r))
             cores[i] = cores[i] * w[None, None, None, :]
+    if case.get('near_tie'):
+        rng_ = np.random.default_rng(spec['seed'] + 3)
+        n1, n2, r = spec['rows'][0], spec['rows'][1], spec['ranks'][1]
+        q1 = np.linalg.qr(rng_.standard_normal((n1, r)))[0]
+        q2 = np.linalg.qr(rng_.standard_normal((n2, r)))[0]
+        sv_ = np.array([1.0, 0.8, 0.6, 0.5][:r])
+        sv_[r - 2] = sv_[r - 1] * (1 + 2e-6)                      # the two values at the cut, written into the second core
+        dl = np.zeros(r)
+        dl[r - 2], dl[r - 1] = -4e-6, 4e-6                      # column norms of the first core: 1 - 4e-6 and 1 + 4e-6
+        cores = [(q1 * (1 + dl)).reshape(1, n1, 1, r), (sv_[:, None] * q2.T).reshape(r, n2, 1, 1)]
     if case.get('aliased'):
         # the same ndarray object at every site of equal shape (a padding / boundary vector used twice, TT([c] * d))
         seen = {}
@@ -331,6 +351,8 @@ def body_cores(case):
     lab.add('cap_list' if isinstance(case['cap'], list) else 'cap_int')
     if max(spec['rows']) >= 48:
         lab.add('large_core_matrices')
+    if case.get('near_tie'):
+        lab.add('near_tie_in_nearly_orthonormal_gauge')
     if case.get('aliased') and len({id(c) for c in cores}) < d:
         lab.add('aliased_cores')
     spectra = unfold_spectra(x, spec['rows'], spec['cols'])
